@@ -383,7 +383,7 @@ REQUIRED_LABELS = {
         "verdict:-205", "verdict:-301", "verdict:-2", "verdict:-666", "mut:delete",
         "mut:replace-int", "mut:replace-str", "mut:replace-list", "mut:replace-dict",
         "mut:addkey", "ambiguous", "reconnection-pending", "after-the-nominal-request",
-        "spelling:padded-3MiB", "spelling:escaped"] + ["tpl:" + n for n in TEMPLATES_V5]
+        "spelling:padded-3MiB", "spelling:escaped", "seq:obo", "seq:obb", "seq:boo"] + ["tpl:" + n for n in TEMPLATES_V5]
     for t in ("quick", "thorough")}
 
 
@@ -394,6 +394,92 @@ def gate(tier, labels, evaluations):
         return ["only %d distinct (template, mutation, field) classes, need %d" % (
             len(classes), need)]
     return []
+
+# ------------------------------------------------------------------ sequences on one manager
+
+def _seq_pool(mode):
+    """The documented requests, plus requests the documentation refuses for a reason of their
+    own (each classified by the specification model, none of them ambiguous)."""
+    if mode == "v1":
+        pool = dict(("ok:" + k, v) for k, v in TEMPLATES_V1.items())
+        pool["bad:hash"] = dict(TEMPLATES_V1["sign"], message="aa" * 31)
+        pool["bad:key-type"] = dict(TEMPLATES_V1["getPubKey"], keyId=5)
+        return pool
+    T = TEMPLATES_V5
+    pool = dict(("ok:" + k, v) for k, v in T.items())
+
+    def with_msg(name, **kw):
+        r = copy.deepcopy(T[name])
+        r["message"].update(kw)
+        return r
+    pool["bad:tx-truncated"] = with_msg("sign_auth", tx=mw.NOMINAL_TX[:-10])
+    pool["bad:tx-truncated-segwit"] = with_msg("sign_segwit", tx=mw.NOMINAL_TX[:-10])
+    pool["bad:tx-empty-script"] = with_msg("sign_auth", tx=mw.NOMINAL_TX.replace(
+        "03" + "00" + "0151", "00"))
+    pool["bad:hash"] = with_msg("sign_unauth", hash="aa" * 31)
+    pool["bad:key"] = dict(T["getPubKey"], keyId="m/44'/0'/0'/0")
+    pool["bad:no-auth"] = {k: v for k, v in T["sign_auth"].items() if k != "auth"}
+    pool["bad:block"] = dict(T["advance"], blocks=[5, T["advance"]["blocks"][1]])
+    pool["bad:version"] = dict(T["state"], version=4)
+    pool["bad:command"] = {"command": "nothing-like-it", "version": 5}
+    return pool
+
+
+def sequence_cases(tier, seed):
+    """Ordered pairs and triples of requests served by ONE manager: what one request leaves
+    behind in the manager must not change how the next one is classified."""
+    out = []
+    for mode in ("v5", "v1"):
+        names = sorted(_seq_pool(mode))
+        for a in names:
+            for b in names:
+                if tier == "thorough" and mode == "v5":
+                    out.extend({"mode": mode, "names": [a, b, c]} for c in names)
+                else:
+                    out.extend({"mode": mode, "names": [a, b, c]} for c in sorted({a, b}))
+    return out
+
+
+def run_sequence(c):
+    mode = c["mode"]
+    pool = _seq_pool(mode)
+    w = mw.default_world()
+    w.adv_plan = {"final": "total"}
+    p = mw.stack(w, v1=(mode == "v1"))
+    labels = ["mode:" + mode, "sequence"]
+    for i, name in enumerate(c["names"]):
+        req = copy.deepcopy(pool[name])
+        line = json.dumps(req)
+        mark = len(w.log)
+        rep = p.handle_request(json.loads(line))
+        mw.check_sim(w)
+        where = "mode %s, request #%d of the sequence %s on one manager" % (mode, i + 1,
+                                                                             c["names"])
+        if not isinstance(rep, dict) or type(rep.get("errorcode")) is not int:
+            raise Violation("reply-shape", "%s: %s -> %r" % (where, line[:300], rep))
+        apdus = w.apdus(mark)
+        is_version = req.get("command") == "version"
+        verdict = "ACC" if apdus or (is_version and rep["errorcode"] == 0) else rep["errorcode"]
+        al, amb = spec.allowed(json.loads(line), mode)
+        if amb:
+            raise HarnessError("sequence pool entry %s is ambiguous" % name)
+        if name.startswith("ok:") and "ACC" not in al or name.startswith("bad:") and "ACC" in al:
+            raise HarnessError("sequence pool entry %s: model allows %r" % (name, al))
+        if verdict not in al:
+            kind = "device-contacted-for-defective-request" if verdict == "ACC" else \
+                "verdict:%s-not-in" % verdict
+            raise Violation("%s:%s" % (kind, "/".join(str(x) for x in sorted(al, key=str))),
+                            "%s: %s -> %r (%d APDUs); docs allow %s" % (
+                                where, line[:300], rep, len(apdus), sorted(al, key=str)))
+        if name.startswith("ok:") and not is_version and rep["errorcode"] not in (0, 1):
+            # the simulated device serves every documented request: an accepted request that
+            # is answered with a failure was not relayed as asked (or not at all)
+            raise Violation("accepted-request-not-served", "%s: %s -> %r" % (
+                where, line[:300], rep))
+        _documented_code(mode, req, rep, line)
+    kinds = "".join(n[0] for n in c["names"])          # e.g. "obb": ok, bad, bad
+    labels.append("seq:" + kinds)
+    return Out(labels, len(set(c["names"])) >= 2)
 
 
 def stages(tier):
@@ -410,6 +496,9 @@ def stages(tier):
             EnumStage("single-mutations-reconnection-pending", PendingSingleMutations, run_case,
                       exhaustive={"quick": True, "thorough": True},
                       budget_s={"quick": 300, "thorough": 300}),
+            EnumStage("request-sequences", sequence_cases, run_sequence,
+                      exhaustive={"quick": True, "thorough": True},
+                      budget_s={"quick": 300, "thorough": 900}),
             HypStage("classify", lambda t: cases(t), run_case,
                      {"quick": 1500, "thorough": 40000},
                      budget_s={"quick": 300, "thorough": 900})]
